@@ -1,0 +1,27 @@
+//go:build verif
+
+package iterator
+
+import "sync/atomic"
+
+// Verification hooks (build tag "verif" only). A sink installed by the verification harness
+// receives one call per hooked program point; it may block, which turns the point into a yield
+// point for forcing interleavings. Without the tag all of this compiles to empty functions.
+
+var verifSink atomic.Value // of func(point string, args ...any)
+
+// VerifSetSink installs (or, with nil, removes) the event sink.
+func VerifSetSink(f func(point string, args ...any)) {
+	if f == nil {
+		f = func(string, ...any) {}
+	}
+	verifSink.Store(f)
+}
+
+func verifEvent(point string, args ...any) {
+	if f, ok := verifSink.Load().(func(string, ...any)); ok {
+		f(point, args...)
+	}
+}
+
+func verifYield(point string) { verifEvent("yield:" + point) }
